@@ -2,6 +2,7 @@ package main
 
 import (
 	"fmt"
+	"go/constant"
 	"go/token"
 	"go/types"
 	"strings"
@@ -134,6 +135,7 @@ func runC18(a *A) {
 			a.Und("send-has-done-arm", token.NoPos, "no send on the input buffer found in the strategies")
 		}
 	})
+	a.Rule("fnsafe/ticker-period-positive", 8, func() { a.rulePositiveTickerPeriod() })
 	a.Rule("locks/released-on-recovered-panic", 8, func() { a.ruleLockReleasedOnRecoveredPanic() })
 	a.Rule("flow/panic-containment", 4, func() {
 		si := a.sinkInfo()
@@ -599,4 +601,318 @@ func (a *A) reachesUserCode() *userCode {
 		}
 	}
 	return u
+}
+
+// ---------------------------------------------------------------- ticker periods
+
+// rulePositiveTickerPeriod: time.NewTicker panics on a period <= 0, and every ticker of the engine
+// is created in a goroutine of its own (window timers, session expiry, watermark updates, sweepers)
+// where nothing recovers: the process dies. For every time.NewTicker call in the module the period is
+// shown positive from the code: a positive constant, a value clamped or checked against a positive
+// bound on the way (`if d < time.Second { d = time.Second }`, `if size <= 0 { return err }`), a field
+// all of whose stores store such a value, a parameter all of whose arguments are such values. Integer
+// division is not positive (1ns / 2 == 0).
+func (a *A) rulePositiveTickerPeriod() int {
+	n := 0
+	for _, fn := range a.ModFuncs {
+		if fn.Blocks == nil {
+			continue
+		}
+		allInstrs(fn, func(in ssa.Instruction) {
+			c, ok := in.(*ssa.Call)
+			if !ok {
+				return
+			}
+			sc := c.Call.StaticCallee()
+			if sc == nil || sc.Pkg == nil || sc.Pkg.Pkg.Path() != "time" || (sc.Name() != "NewTicker" && sc.Name() != "Tick") {
+				return
+			}
+			n++
+			p := &posProver{a: a, busy: map[ssa.Value]bool{}}
+			ok2 := p.positive(c.Call.Args[0], c.Block(), 0)
+			a.Check(ok2, fmt.Sprintf("%s#ticker-period-positive", fname(fn)), c.Pos(), "the ticker period is positive on every path: "+TermOf(c.Call.Args[0], nil).String(),
+				"the ticker period "+TermOf(c.Call.Args[0], nil).String()+" is not shown positive ("+p.why+"): time.NewTicker panics on a period <= 0, in a goroutine without a recover — the process dies")
+		})
+	}
+	return n
+}
+
+type posProver struct {
+	a    *A
+	busy map[ssa.Value]bool
+	why  string
+}
+
+func (p *posProver) fail(format string, args ...any) bool {
+	if p.why == "" {
+		p.why = fmt.Sprintf(format, args...)
+	}
+	return false
+}
+
+func posConst(v ssa.Value) (int64, bool) {
+	k, ok := v.(*ssa.Const)
+	if !ok || k.Value == nil || k.Value.Kind() != constant.Int {
+		return 0, false
+	}
+	return k.Int64(), true
+}
+
+// guardImpliesPositive: does cond, taken with the given sense, imply v > 0?
+func guardImpliesPositive(cond ssa.Value, sense bool, v ssa.Value, same func(x, y ssa.Value) bool) bool {
+	for {
+		u, ok := cond.(*ssa.UnOp)
+		if !ok || u.Op != token.NOT {
+			break
+		}
+		cond, sense = u.X, !sense
+	}
+	bo, ok := cond.(*ssa.BinOp)
+	if !ok {
+		return false
+	}
+	op, x, y := bo.Op, bo.X, bo.Y
+	if _, isK := posConst(x); isK { // c OP v  ->  v OP' c
+		x, y = y, x
+		switch op {
+		case token.LSS:
+			op = token.GTR
+		case token.LEQ:
+			op = token.GEQ
+		case token.GTR:
+			op = token.LSS
+		case token.GEQ:
+			op = token.LEQ
+		}
+	}
+	k, isK := posConst(y)
+	if !isK || !same(x, v) {
+		return false
+	}
+	if !sense { // negate
+		switch op {
+		case token.LSS:
+			op = token.GEQ
+		case token.LEQ:
+			op = token.GTR
+		case token.GTR:
+			op = token.LEQ
+		case token.GEQ:
+			op = token.LSS
+		case token.EQL:
+			op = token.NEQ
+		case token.NEQ:
+			op = token.EQL
+		}
+	}
+	switch op {
+	case token.GTR:
+		return k >= 0
+	case token.GEQ:
+		return k > 0
+	case token.EQL:
+		return k > 0
+	}
+	return false
+}
+
+func (p *posProver) positive(v ssa.Value, at *ssa.BasicBlock, d int) bool {
+	if d > 10 {
+		return p.fail("trace depth exceeded")
+	}
+	if k, ok := posConst(v); ok {
+		if k > 0 {
+			return true
+		}
+		return p.fail("the constant %d", k)
+	}
+	// the same value, or another load of the same field of the same object with no store in between is
+	// not assumed: only the identical SSA value counts
+	same := func(x, y ssa.Value) bool {
+		if x == y {
+			return true
+		}
+		// conversions of the same value
+		if c, ok := x.(*ssa.Convert); ok && c.X == y {
+			return true
+		}
+		if c, ok := x.(*ssa.ChangeType); ok && c.X == y {
+			return true
+		}
+		return false
+	}
+	if at != nil {
+		for _, g := range guardsOf(at) {
+			if guardImpliesPositive(g.Cond, g.Sense, v, same) {
+				return true
+			}
+		}
+	}
+	if p.busy[v] {
+		return true // a cycle through a loop phi: decided by the other edges
+	}
+	p.busy[v] = true
+	defer delete(p.busy, v)
+	switch x := v.(type) {
+	case *ssa.Phi:
+		for i, e := range x.Edges {
+			pred := x.Block().Preds[i]
+			// the branch that led here
+			if iff, ok := pred.Instrs[len(pred.Instrs)-1].(*ssa.If); ok && pred.Succs[0] != pred.Succs[1] {
+				if guardImpliesPositive(iff.Cond, pred.Succs[0] == x.Block(), e, same) {
+					continue
+				}
+			}
+			if !p.positive(e, pred, d+1) {
+				return false
+			}
+		}
+		return true
+	case *ssa.ChangeType:
+		return p.positive(x.X, at, d+1)
+	case *ssa.Convert:
+		if isIntType(x.X.Type()) {
+			return p.positive(x.X, at, d+1)
+		}
+		return p.fail("conversion from %s", x.X.Type())
+	case *ssa.BinOp:
+		switch x.Op {
+		case token.MUL, token.ADD:
+			return p.positive(x.X, at, d+1) && p.positive(x.Y, at, d+1)
+		case token.QUO:
+			return p.fail("the integer division %s can be 0", TermOf(x, nil).String())
+		}
+		return p.fail("operator %s", x.Op)
+	case *ssa.UnOp:
+		if x.Op != token.MUL {
+			return p.fail("operator %s", x.Op)
+		}
+		switch ad := x.X.(type) {
+		case *ssa.FieldAddr:
+			st := derefStruct(ad.X.Type())
+			if st == nil {
+				return p.fail("field load")
+			}
+			f := st.Field(ad.Field)
+			stores := 0
+			for _, fn := range p.a.ModFuncs {
+				if fn.Blocks == nil {
+					continue
+				}
+				for _, s := range storesToField(fn, f) {
+					stores++
+					if !p.positive(s.Val, s.Block(), d+1) && !p.clampedAfterStore(s, f, d) {
+						return p.fail("field %s is stored at %s", f.Name(), p.a.pos(s.Pos()))
+					}
+				}
+			}
+			if stores == 0 {
+				return p.fail("field %s is never stored", f.Name())
+			}
+			return true
+		case *ssa.Alloc:
+			ok := true
+			cnt := 0
+			allInstrs(ad.Parent(), func(in ssa.Instruction) {
+				if s, isSt := in.(*ssa.Store); isSt && s.Addr == ssa.Value(ad) {
+					cnt++
+					if !p.positive(s.Val, s.Block(), d+1) {
+						ok = false
+					}
+				}
+			})
+			return ok && cnt > 0
+		}
+		return p.fail("load %s", x.String())
+	case *ssa.Parameter:
+		fn := x.Parent()
+		idx := -1
+		for i, q := range fn.Params {
+			if q == x {
+				idx = i
+			}
+		}
+		node := p.a.CG().Nodes[fn]
+		if node == nil || len(node.In) == 0 || idx < 0 {
+			return p.fail("parameter %s of %s has no resolved caller", x.Name(), fname(fn))
+		}
+		for _, e := range node.In {
+			cc := e.Site.Common()
+			args := cc.Args
+			if cc.IsInvoke() {
+				args = append([]ssa.Value{cc.Value}, args...)
+			}
+			if idx >= len(args) {
+				return p.fail("call of %s at %s", fname(fn), p.a.pos(e.Site.Pos()))
+			}
+			if !p.a.fnInModule(e.Caller.Func) {
+				continue
+			}
+			if !p.positive(args[idx], e.Site.Block(), d+1) {
+				return p.fail("argument %s of the call at %s", x.Name(), p.a.pos(e.Site.Pos()))
+			}
+		}
+		return true
+	}
+	return p.fail("%T %s", v, v.String())
+}
+
+// clampedAfterStore: `x.f = v; if x.f < C { x.f = C }` with C > 0 — the store is followed, in its own
+// block, by a test of the same field of the same object whose false edge implies a positive value and
+// whose true edge stores a positive value and rejoins.
+func (p *posProver) clampedAfterStore(st *ssa.Store, f *types.Var, d int) bool {
+	fa, ok := st.Addr.(*ssa.FieldAddr)
+	if !ok {
+		return false
+	}
+	b := st.Block()
+	iff, ok := b.Instrs[len(b.Instrs)-1].(*ssa.If)
+	if !ok {
+		return false
+	}
+	after := false
+	var load ssa.Value
+	for _, in := range b.Instrs {
+		if in == ssa.Instruction(st) {
+			after = true
+			continue
+		}
+		if !after {
+			continue
+		}
+		if s2, ok := in.(*ssa.Store); ok && s2 != st {
+			if fa2, ok := s2.Addr.(*ssa.FieldAddr); ok && fa2.X == fa.X && fa2.Field == fa.Field {
+				return false
+			}
+		}
+		if u, ok := in.(*ssa.UnOp); ok && u.Op == token.MUL {
+			if fa2, ok := u.X.(*ssa.FieldAddr); ok && fa2.X == fa.X && fa2.Field == fa.Field {
+				load = u
+			}
+		}
+	}
+	if load == nil {
+		return false
+	}
+	same := func(x, y ssa.Value) bool { return x == y }
+	if !guardImpliesPositive(iff.Cond, false, load, same) {
+		return false
+	}
+	tb := b.Succs[0]
+	if len(tb.Succs) != 1 || tb.Succs[0] != b.Succs[1] {
+		return false
+	}
+	for _, in := range tb.Instrs {
+		if s2, ok := in.(*ssa.Store); ok {
+			if fa2, ok := s2.Addr.(*ssa.FieldAddr); ok && fa2.X == fa.X && fa2.Field == fa.Field {
+				saved := p.why
+				ok := p.positive(s2.Val, tb, d+1)
+				if ok {
+					p.why = saved
+				}
+				return ok
+			}
+		}
+	}
+	return false
 }
